@@ -8,11 +8,12 @@ import numpy as np
 import bct
 from bctmc import smallscope as ss
 from bctmc import oracles as orc
+from bctmc import named
 from bctmc.runner import guarded
 from bctmc.tally import Tally
 
 PROPERTY = 'C09'
-RULE = ('all undirected graphs n<=5 and digraphs n<=4 (binary); weights {1/8,1} on 4-node graphs and 3-node digraphs; '
+RULE = ('the structured 7-10 node family of bctmc/named.py (binary and weights {1/8,1}) and all undirected graphs n<=5 and digraphs n<=4 (binary); weights {1/8,1} on 4-node graphs and 3-node digraphs; '
         'signed {-1,-1/8,0,1/8,1} and {-1,-1e-9,0,1e-9,1} (connections weaker than common tolerances) on 4 nodes for clustering_coef_wu_sign x 3 coef types (thorough: binary n=6, weighted '
         'n=5 und and n=4 dir); non-trivial = graph with at least one triangle and at least one node on no triangle')
 ASSUMPTIONS = ['float64 inputs with empty diagonal; weights 1/8 and 1 (cube roots 1/2 and 1)',
@@ -32,8 +33,22 @@ FAMILIES = {
 }
 
 
+def named_cases():
+    out = []
+    for tag, kind in (('bin_und', 'u'), ('bin_dir', 'd')):
+        for label, A in named.family(tag):
+            n = len(A)
+            i, j = np.indices((n, n))
+            out.append((kind, True, label, A))
+            out.append((kind, False, label + ':w', A * np.where((np.minimum(i, j) + np.maximum(i, j)) % 2 == 0, 1.0, 0.125)))
+    return out
+
+
 def plan(ctx):
     units = []
+    tot = len(named_cases())
+    for (a, b) in ss.ranges(tot, 16):
+        units.append(('named', a, b))
     for name, (kind, n, alpha, tier) in FAMILIES.items():
         if tier == 't' and not ctx.thorough:
             continue
@@ -149,9 +164,12 @@ def scalar_check(t, fname, case, f, X, num, den):
         t.viol(fname, 'range_0_1', case, observed=out)
 
 
-def check_case(t, name, X, case):
-    kind, n, alpha, _ = FAMILIES[name]
-    binary = alpha == BIN
+def check_case(t, name, X, case, override=None):
+    if override is not None:
+        kind, binary = override
+    else:
+        kind, n, alpha, _ = FAMILIES[name]
+        binary = alpha == BIN
     if kind == 'u':
         num, den = ref_undirected(X)
         C = coef(num, den)
@@ -190,8 +208,16 @@ def check_case(t, name, X, case):
 
 def work(unit):
     name, a, b = unit
-    kind, n, alpha, _ = FAMILIES[name]
     t = Tally(PROPERTY)
+    if name == 'named':
+        cases = named_cases()
+        for idx in range(a, b):
+            kind, binary, label, X = cases[idx]
+            case = {'family': 'named', 'index': idx, 'graph': label, 'X': X, 'kind': kind, 'binary': binary}
+            if check_case(t, name, X, case, override=(kind, binary)):
+                t.c['nontrivial'] += 1
+        return t
+    kind, n, alpha, _ = FAMILIES[name]
     for idx in range(a, b):
         X = ss.dir_graph(n, alpha, idx) if kind == 'd' else ss.und_graph(n, alpha, idx)
         case = {'family': name, 'index': idx, 'X': X}
@@ -205,5 +231,6 @@ def work(unit):
 def replay(rec):
     t = Tally(PROPERTY)
     c = rec['case']
-    check_case(t, c['family'], np.array(c['X'], dtype=float), {k: c[k] for k in ('family', 'index', 'X')})
+    check_case(t, c['family'], np.array(c['X'], dtype=float), {k: c[k] for k in ('family', 'index', 'X')},
+               override=(c['kind'], c['binary']) if c['family'] == 'named' else None)
     return t
